@@ -124,7 +124,31 @@ class CodecInterp(Interp):
                 self.event('decide', key if key is not None else norm(test), t)
             self.refine(test, t, frame)
             self.on_refine(test, t, frame)
+            self.on_decide(v, t, frame)
         return t
+
+    def _is_leaf(self, v):
+        return isinstance(v, Sym) and not v.args and (v.op.startswith('P:') or v.op.startswith('io'))
+
+    def on_decide(self, v, truth, frame):
+        """value-based identity-guard refinement: the decided value may be a leaf held in a flag variable, or the result of a
+        comparison computed earlier (`one_bit = nbits_diff == 1 ... if one_bit and diff == 1`) or in a helper; the binding
+        is applied to every frame of the call stack (the caller's `diff` is the helper's parameter)."""
+        if not isinstance(v, Sym):
+            return
+        if self._is_leaf(v):
+            if not truth and (v.op[2:] in self.NUMERIC_PARAMS or v.op.startswith('io')):
+                self.rebind(frame, v, 0)
+            return
+        if v.op in ('cmpEq', 'cmpIs', 'cmpNotEq', 'cmpIsNot') and len(v.args) == 2:
+            eq = v.op in ('cmpEq', 'cmpIs')
+            if eq != truth:
+                return
+            a, b = v.args
+            for x, y in ((a, b), (b, a)):
+                if self._is_leaf(x) and not isinstance(y, (Sym, Top, Obj, list, dict, tuple)):
+                    self.rebind(frame, x, y)
+                    return
 
     def on_refine(self, test, truth, frame):
         """identity-guard refinement: on the arm where `p` is falsy bind p := 0, where `p != k`
@@ -154,10 +178,16 @@ class CodecInterp(Interp):
 
     def rebind(self, frame, leaf, const):
         """Replace every local that *is* this leaf by the constant (the guard decided its value)."""
-        self.path.events.append(('bind', repr(leaf), const))
-        for k, v in list(frame.locals.items()):
-            if isinstance(v, Sym) and v == leaf:
-                frame.locals[k] = const
+        ev = ('bind', repr(leaf), const)
+        if ev not in self.path.events:
+            self.path.events.append(ev)
+        frames = list(getattr(self, 'frame_stack', None) or [])
+        if not any(f is frame for f in frames):
+            frames.append(frame)
+        for f in frames:
+            for k, v in list(f.locals.items()):
+                if isinstance(v, Sym) and v == leaf:
+                    f.locals[k] = const
 
     def on_subscript(self, base, idx, node, frame):
         if isinstance(base, RecList):
@@ -192,6 +222,31 @@ class CodecInterp(Interp):
         if isinstance(base, Obj) and base.cls == 'CoderState':
             self.event('statestore', attr, value, self.where(node, frame))
         return False
+
+    def on_abstract_loop(self, node, itervalue, frame, token):
+        """A plain list that is empty before a per-subset loop and receives exactly one element per iteration is the per-subset
+        column itself (`diffs = []; for v in values: diffs.append(v - m)` is `values[i] = v - m` / `[v - m for v in values]`)."""
+        per_subset = isinstance(itervalue, AllSubsets) or (isinstance(itervalue, Sym) and itervalue.op == 'VALUES') or \
+            (isinstance(itervalue, Obj) and itervalue.cls == 'enumerate')
+        if not per_subset:
+            return None
+        frames = list(getattr(self, 'frame_stack', None) or [frame])
+        if token is None:
+            seen = {}
+            for f in frames:
+                for k, v in f.locals.items():
+                    if type(v) is list and len(v) == 0:
+                        seen[id(v)] = v
+            return seen
+        for lid, lst in token.items():
+            if len(lst) == 1:
+                elt = lst[0]
+                self.event('valstore', elt, self.where(node, frame))
+                for f in frames:
+                    for k, v in list(f.locals.items()):
+                        if v is lst:
+                            f.locals[k] = Sym('VALUES')
+        return None
 
     def loop_var(self, node, itervalue, frame):
         if isinstance(itervalue, AllSubsets):
